@@ -109,7 +109,17 @@ def one(case):
     e3 = Event(**e)
     rec.update(out3=limbs_out(e3.timestamp), dout3=dur_limbs(e3.duration), id3=e3.id if e3.id is not None else -1, data3=dname(e3.data))
     # the JSON form follows the event: change the data dict in place (no setter is involved) and serialise again
-    e.data["added-later"] = [1, {"k": "v"}]
+    how = (d + s + us + ds) % 4
+    if how == 0:
+        e.data["added-later"] = [1, {"k": "v"}]                    # in place, no setter involved
+    elif how == 1:
+        e.data = {"replaced": [d % 7, {"k": None}]}                # a new dict through the data setter
+    elif how == 2:
+        e.id = (eid or 0) + 1000                                   # a new id through the id setter
+    else:
+        e.data = dict(e.data, more="x")
+        e.id = None if eid is not None else 5
+    rec["id_now"] = e.id if e.id is not None else -1
     rec["data_now"] = dname(e.data)
     rec["inp2"] = rec["inp"]
     if setcase is not None:      # a new instant (and duration) through the public setters, after the event has been serialised once
